@@ -73,7 +73,7 @@ var bigBases = map[string]int64{"p31": 1<<31 - 2, "n31": -(1 << 31) - 1, "p32": 
 	"max": math.MaxInt64 - 3, "min": math.MinInt64}
 
 // unsigned bases cross or lie beyond MaxInt64
-var ubigBases = map[string]uint64{"u63": 1<<63 - 1, "umax": math.MaxUint64 - 3}
+var ubigBases = map[string]uint64{"u63": 1<<63 - 1, "umax": math.MaxUint64 - 3, "u2048": math.MaxUint64 - 2047}
 
 func absInt(m abs) (int64, uint64, bool) { // value, as uint64, isBigUnsigned
 	if v, ok := m["v"]; ok {
